@@ -201,6 +201,8 @@ PROPS["C20"] = {
     "parts": [
         {"name": "capacity", "mode": "plain", "test": "TestC20Capacity",
          "quick": {"checks": 1500, "shards": 2}, "thorough": {"checks": 20000, "shards": 8}},
+        {"name": "capacity-concurrent", "mode": "plain", "test": "TestC20CapacityConcurrent",
+         "quick": {"checks": 1000, "shards": 4}, "thorough": {"checks": 30000, "shards": 8}},
         {"name": "breaker", "mode": "faketime", "test": "TestC20Breaker",
          "quick": {"checks": 3000, "shards": 2}, "thorough": {"checks": 50000, "shards": 8}},
         {"name": "throttle", "mode": "faketime", "test": "TestC20Throttle",
@@ -643,3 +645,4 @@ PROPS["C15"]["rule"] += " Part 1 also deletes locations (Location.Delete), uses 
 PROPS["C15"]["rule"] += " In half of the sys.System cases A and B have a parent location P (with a fact the rules' conditions look at and a yearly rule of its own that must never run); `outage` operations switch P off for 1.1 or 2.3 s, during which ticks may fail; recurring rules must be running again afterwards."
 PROPS["C15"]["rule"] += " A third part (crolt-glue) covers the persistent service end to end, in process: locations whose state hooks use cron.CroltSimple, whose HTTP client is routed to the handlers of the real crolt (package main, injected with -overlay; no network; firing loop not started); histories (2-14 ops) of adding scheduled rules (cron expressions, '+d', '!t', '@yearly'), writing them again with another schedule, overwriting them with ordinary rules or facts, RemRule, Clear, Delete and reload over two locations; after every op crolt's job table must hold exactly one job per live scheduled rule, with that rule's current schedule and an event that names the rule and its location; non-trivial = a scheduled rule was overwritten or removed."
 PROPS["C12"]["rule"] += " Every event's result (the work) is encoded as JSON by the client, as the service does before it answers."
+PROPS["C20"]["rule"] += " A fourth part (capacity-concurrent): 2-8 clients add 1-3 facts or rules each, with distinct ids, to one location with MaxFacts 1..6 and 0..max facts stored beforehand, at the same time (spin delays, schedule noise at the lock boundaries); afterwards the location holds <= max items, no more adds succeeded than there was room for (and not fewer, when enough were attempted), every acknowledged item is there and no refused one is; non-trivial = more adds than room."
